@@ -206,6 +206,31 @@ message Response {
 """
 
 
+def schema_empty():
+    """field-less message types (marker messages) in every position that carries presence, and as always-present values."""
+    return header("empty") + """
+message Ping {}
+message Pong {
+  option (pico.message).always_present = true;
+}
+message Holder {
+  string name = 1;
+  Ping ping = 2;
+  optional Ping opt = 3;
+  oneof k {
+    Ping one = 4;
+    int32 other = 5;
+    Pong value = 9;
+  }
+  repeated Ping many = 6;
+  Pong pong = 7;
+  repeated Pong pongs = 8;
+  Ping last = 2048;
+  repeated bool flags = 2049;
+}
+"""
+
+
 def schema_bigenum():
     """enum size boundaries (top-level with 20 values, nested with 17, negative and sparse numbers)."""
     s = header("bigenum", pico=False) + "enum Code {\n"
@@ -346,7 +371,7 @@ BOUNDARY = {
 
 def fixed_schemas():
     return {"allmaps": schema_allmaps(), "recur": schema_recur(), "presence": schema_presence(), "order": schema_order(), "casts": schema_casts(),
-            "capone": schema_capone(), "oneofap": schema_oneofap(), "nested": schema_nested(), "bigenum": schema_bigenum(), "wkimp": schema_wkimp()}
+            "capone": schema_capone(), "oneofap": schema_oneofap(), "nested": schema_nested(), "empty": schema_empty(), "bigenum": schema_bigenum(), "wkimp": schema_wkimp()}
 
 
 def build(schemas, tag="fresh"):
